@@ -285,4 +285,130 @@ theorem varTypeOrigin_const (ws base targs ptr : Str) (hS : ∀ c ∈ ws, isSpac
   rw [hd]
   simp
 
+/-! ### parameter text → `Param.parse` → `var_type` → `var_type_origin` -/
+
+/-- the characters of `s` as atoms in front of `r` -/
+def Frag.atoms : Str → Frag → Frag
+  | [], r => r
+  | c :: cs, r => .atom c (Frag.atoms cs r)
+
+theorem render_atoms (s : Str) (r : Frag) : (Frag.atoms s r).render = s ++ r.render := by
+  induction s with
+  | nil => rfl
+  | cons c cs ih => simp [Frag.atoms, Frag.render, ih]
+
+theorem nameChar_plain (c : Char) (h : isNameChar c = true) : has Frag.special c = false ∧ c ≠ ' ' ∧ c ≠ '=' := by
+  have key : ∀ x ∈ Regex.wordChars ++ [':'], has Frag.special x = false ∧ x ≠ ' ' ∧ x ≠ '=' := by decide
+  apply key
+  simp only [isNameChar, Regex.isWordChar, Bool.or_eq_true, List.contains_eq_mem, decide_eq_true_eq, beq_iff_eq] at h
+  rcases h with h | h
+  · exact List.mem_append_left _ h
+  · exact List.mem_append_right _ (by simp [h])
+
+theorem atoms_props (r : Frag) : ∀ (s : Str), (∀ c ∈ s, isNameChar c = true) →
+    (Frag.Simple r → Frag.Simple (Frag.atoms s r)) ∧ Frag.noTop ' ' (Frag.atoms s r) = Frag.noTop ' ' r ∧
+      Frag.noTop '=' (Frag.atoms s r) = Frag.noTop '=' r := by
+  intro s
+  induction s with
+  | nil => intro _; exact ⟨id, rfl, rfl⟩
+  | cons c cs ih =>
+    intro h
+    obtain ⟨h1, h2, h3⟩ := ih (fun x hx => h x (by simp [hx]))
+    obtain ⟨p1, p2, p3⟩ := nameChar_plain c (h c (by simp))
+    refine ⟨fun hr => ?_, ?_, ?_⟩
+    · have := h1 hr
+      simp only [Frag.Simple, Frag.atoms, Frag.wf, p1, Bool.not_false, Bool.true_and] at this ⊢
+      exact this
+    · simp [Frag.atoms, Frag.noTop, p2, h2]
+    · simp [Frag.atoms, Frag.noTop, p3, h3]
+
+/-- `*` / `&` / nothing behind the type -/
+def ptrFrag : Option Char → Frag
+  | none => .nil
+  | some c => .atom c .nil
+
+/-- a C++ type token: base name, optionally `<template arguments>`, optionally `*` or `&` -/
+def tyTail : Option Frag → Option Char → Frag
+  | none, ptr => ptrFrag ptr
+  | some i, ptr => .group .ang i (ptrFrag ptr)
+
+def tyTok (base : Str) (targs : Option Frag) (ptr : Option Char) : Frag := Frag.atoms base (tyTail targs ptr)
+
+def targsText : Option Frag → Str
+  | none => []
+  | some i => '<' :: (i.render ++ ['>'])
+
+def ptrText : Option Char → Str
+  | none => []
+  | some c => [c]
+
+theorem render_tyTok (base : Str) (targs : Option Frag) (ptr : Option Char) :
+    (tyTok base targs ptr).render = base ++ (targsText targs ++ ptrText ptr) := by
+  rw [tyTok, render_atoms]
+  cases targs <;> cases ptr <;> simp [tyTail, targsText, ptrText, ptrFrag, Frag.render, BK.open, BK.close]
+
+theorem typeRest_tyTok (targs : Option Frag) (ptr : Option Char) (hp : ∀ c, ptr = some c → c = '*' ∨ c = '&') :
+    typeRest (targsText targs) (ptrText ptr) := by
+  refine ⟨?_, ?_⟩
+  · cases targs with
+    | none => exact Or.inl rfl
+    | some i => exact Or.inr ⟨_, rfl⟩
+  · cases ptr with
+    | none => exact Or.inl rfl
+    | some c =>
+      rcases hp c rfl with h | h <;> subst h
+      · exact Or.inr (Or.inl rfl)
+      · exact Or.inr (Or.inr rfl)
+
+theorem paramToken_tyTok (base : Str) (targs : Option Frag) (ptr : Option Char) (hb : base ≠ [])
+    (hW : ∀ c ∈ base, isNameChar c = true) (hi : ∀ i, targs = some i → Frag.Simple i)
+    (hp : ∀ c, ptr = some c → c = '*' ∨ c = '&') : ParamToken (tyTok base targs ptr) := by
+  have hptr : Frag.Simple (ptrFrag ptr) ∧ Frag.noTop ' ' (ptrFrag ptr) = true ∧ Frag.noTop '=' (ptrFrag ptr) = true := by
+    cases ptr with
+    | none => exact ⟨rfl, rfl, rfl⟩
+    | some c => rcases hp c rfl with h | h <;> subst h <;> decide
+  obtain ⟨a1, a2, a3⟩ := atoms_props (tyTail targs ptr) base hW
+  refine ⟨?_, ?_, ?_, ?_⟩
+  · apply a1
+    cases targs with
+    | none => exact hptr.1
+    | some i =>
+      have := hi i rfl
+      simp only [tyTail, Frag.Simple, Frag.wf, Bool.and_eq_true] at this hptr ⊢
+      exact ⟨this, hptr.1⟩
+  · rw [tyTok, a2]; cases targs <;> simp [tyTail, Frag.noTop, hptr.2.1]
+  · rw [tyTok, a3]; cases targs <;> simp [tyTail, Frag.noTop, hptr.2.2]
+  · cases base with
+    | nil => exact absurd rfl hb
+    | cons b bs => simp [tyTok, Frag.atoms]
+
+def constTok : Frag := Frag.atoms ['c', 'o', 'n', 's', 't'] .nil
+
+/-- the whole way: the text of a C++ parameter `[const ]base[<…>][*|&] name = default` is taken apart by `Param.parse`
+    into type, name and default, and `var_type_origin` of that type is the base name -/
+theorem param_origin (cst : Bool) (base : Str) (targs : Option Frag) (ptr : Option Char) (nm df : Frag) (hb : base ≠ [])
+    (hW : ∀ c ∈ base, isNameChar c = true) (hi : ∀ i, targs = some i → Frag.Simple i)
+    (hp : ∀ c, ptr = some c → c = '*' ∨ c = '&') (hn : ParamToken nm) (hd : Frag.Simple df) :
+    ∃ ty, paramParse ((Frag.join ' ' ((if cst then [constTok] else []) ++ [tyTok base targs ptr] ++ [nm])).render
+        ++ ' ' :: '=' :: ' ' :: df.render) = .ok (ty, nm.render, strip df.render) ∧
+      varTypeOrigin ty = .ok base := by
+  have hty := paramToken_tyTok base targs ptr hb hW hi hp
+  have hr := typeRest_tyTok targs ptr hp
+  have hc : ParamToken constTok := by decide
+  refine ⟨_, paramParse_default ((if cst then [constTok] else []) ++ [tyTok base targs ptr]) nm df ?_ hd, ?_⟩
+  · intro t ht
+    cases cst
+    · simp only [Bool.false_eq_true, if_false, List.nil_append, List.cons_append, List.mem_cons, List.not_mem_nil, or_false] at ht
+      rcases ht with ht | ht <;> subst ht <;> assumption
+    · simp only [if_true, List.nil_append, List.cons_append, List.mem_cons, List.not_mem_nil, or_false] at ht
+      rcases ht with ht | ht | ht <;> subst ht <;> assumption
+  · cases cst with
+    | false =>
+      simp only [Bool.false_eq_true, if_false, List.nil_append, List.map_cons, List.map_nil, Str.join, render_tyTok]
+      exact varTypeOrigin_plain base _ _ hb hW hr
+    | true =>
+      simp only [if_true, List.cons_append, List.nil_append, List.map_cons, List.map_nil, Str.join, render_tyTok]
+      have := varTypeOrigin_const [] base _ _ (by simp) hb hW hr
+      simpa [constTok, Frag.atoms, Frag.render, constBlank] using this
+
 end Tranp.Block
